@@ -218,7 +218,8 @@ class LoadSurferCase(Contract):
                 vals[rng.randrange(nn), rng.randrange(ne)] = vals[0, 0]  # repeated values
             if rng.random() < 0.4:
                 for _ in range(rng.randint(1, 3)):
-                    vals[rng.randrange(nn), rng.randrange(ne)] = 1.70141e38
+                    # any value >= 1.70141e38 is a blank sentinel (the statement), not only the canonical one
+                    vals[rng.randrange(nn), rng.randrange(ne)] = rng.choice([1.70141e38, 1.70141e38, 1.71e38, 3.4028235e38, 1e39])
             if (vals < SENTINEL).sum() == 0:
                 vals[0, 0] = 1.0
             region = (rng.uniform(-100, 0), rng.uniform(1, 100), rng.uniform(-50, 0), rng.uniform(1, 50))
